@@ -265,7 +265,10 @@ CLAIMED["C09"] = dict(
          "keeps at most 16 KiB and loses nothing, and a forwarded-body write hands back at most what it was offered. Tied by the ties of "
          "C06/C08/C11/C12/C15/C17 and by an adversarial run through every door under catch_unwind and a watchdog: the valid cases of "
          "those properties mutated (bit flips, truncations, extreme length fields, insertions, runs of 0x00/0xff, re-segmentation) and "
-         "every string of length <= 3 over a reduced alphabet for the packet parsers, with model equality where the model is total",
+         "every string of length <= 3 over a reduced alphabet for the packet parsers, with model equality where the model is total; "
+         "plus a fixed list of malformed origin answers to a forwarded request (bytes behind a body that is complete by its own framing, "
+         "length fields and chunk sizes that are no lengths, broken chunk framing and status lines; whole, cut at the head, cut in front "
+         "of the excess, byte by byte), the same on every run whatever the seed",
     note="partial: httparse / tls-parser / toml_edit / h2 are exercised, not modelled; memory bounds are theorems on the models' "
          "buffers, not measurements; QUIC packet parsing is not driven; trusted as for the contributing checks",
     design="DESIGN.md 5 C09")
